@@ -594,3 +594,20 @@ T("C19", "from-reply-and-7f", SV_, "        val = cls.get(USINT.encode(USINT.dec
 M("C06", "real-decode-rounded", DT, 'class REAL(ElementaryDataType):', 'class REAL(ElementaryDataType):\n    @classmethod\n    def _decode(cls, stream):\n        value = super()._decode(stream)\n        return float(f"{value:.7g}")\n', ["D6.8"])
 T("C06", "real-decode-passthrough", DT, 'class REAL(ElementaryDataType):', 'class REAL(ElementaryDataType):\n    @classmethod\n    def _decode(cls, stream):\n        value = super()._decode(stream)\n        return value\n')
 M("C01", "fragment-offset-data-minus-2", LX, "                    offset += len(response.value_bytes)", "                    offset += len(response.data) - 2", ["D1.3"])
+
+# round 4: D2.10, D3.9 removals, D14.6
+M("C02", "bool-dword-count-floor", LX, '            parsed_tag["elements"] = elements = elements - (parsed_tag["bit"] or 0) // 32', '            parsed_tag["elements"] = elements = (value_elements // 32) or 1', ["D2.10"])
+T("C02", "bool-dword-count-ceil", LX, '            parsed_tag["elements"] = elements = elements - (parsed_tag["bit"] or 0) // 32', '            parsed_tag["elements"] = elements = (value_elements + 31) // 32')
+M("C03", "merge-table-pop-on-error", LX, '                        tag_data["error"] = f"Invalid Tag Request - {err!r}"\n                        continue\n                    bit_writes[tag_data["plc_tag"]] = request', '                        tag_data["error"] = f"Invalid Tag Request - {err!r}"\n                        bit_writes.pop(tag_data["plc_tag"], None)\n                        continue\n                    bit_writes[tag_data["plc_tag"]] = request', ["D3.9"])
+M("C14", "set-time-zero-falsy", LX, "        if microseconds is None:\n            microseconds = int(time.time() * SEC_TO_US)", "        microseconds = int(microseconds or time.time() * SEC_TO_US)", ["D14.6"])
+M("C14", "set-time-attribute-count", LX, "                [1, 6, microseconds]", "                [1, 6, microseconds // 1000]", ["D14.6"])
+T("C14", "set-time-conditional-expr", LX, "        if microseconds is None:\n            microseconds = int(time.time() * SEC_TO_US)", "        microseconds = int(time.time() * SEC_TO_US) if microseconds is None else microseconds")
+
+# D10.9 connection identifiers only rewritten while not opened
+M("C10", "serial-regenerated-when-open", CD, '        if self._connection_opened:\n            return True\n        try:\n            if self._sock is None:', '        try:\n            self._cfg["cid"] = urandom(4)\n            self._cfg["vsn"] = urandom(4)\n        except Exception as err:\n            raise CommError("failed to open a connection") from err\n        if self._connection_opened:\n            return True\n        try:\n            if self._sock is None:', ["D10.9"])
+T("C10", "serial-before-connect", CD, '            self._sock.connect(self._cfg["ip address"], self._cfg["port"])\n            self._connection_opened = True\n            self._cfg["cid"] = urandom(4)\n            self._cfg["vsn"] = urandom(4)', '            self._cfg["cid"] = urandom(4)\n            self._cfg["vsn"] = urandom(4)\n            self._sock.connect(self._cfg["ip address"], self._cfg["port"])\n            self._connection_opened = True')
+
+# D15.2 witnesses: shared default route, fresh copies
+M("C15", "shared-default-route", CD, '            _path = [PortSegment("bp", 0)] if auto_slot else []', '            _path = DEFAULT_SLOT_ROUTE if auto_slot else []', ["D15.2"], more=[(CD, "def parse_cip_route(", 'DEFAULT_SLOT_ROUTE = [PortSegment("bp", 0)]\n\n\ndef parse_cip_route(')])
+T("C15", "default-route-copied", CD, '            _path = [PortSegment("bp", 0)] if auto_slot else []', '            _path = list(DEFAULT_SLOT_ROUTE) if auto_slot else []', more=[(CD, "def parse_cip_route(", 'DEFAULT_SLOT_ROUTE = (PortSegment("bp", 0),)\n\n\ndef parse_cip_route(')])
+T("C15", "shortcut-branches-reordered", CD, '        if not segments:\n            _path = [PortSegment("bp", 0)] if auto_slot else []\n        elif len(segments) == 1 and auto_slot:\n            _path = [PortSegment("bp", segments[0])]', '        if auto_slot and len(segments) == 1:\n            _path = [PortSegment("bp", segments[0])]\n        elif not segments:\n            _path = [PortSegment("bp", 0)] if auto_slot else []')
